@@ -36,7 +36,7 @@ type replayCase struct {
 
 func main() {
 	kit.Main("C01", "exploration", func(r *kit.Run) {
-		r.Rule("complete products per family F1..F7 (see DESIGN.md C01) x decoder counts; a case is one (file, procs) scan; " +
+		r.Rule("complete products per family F1..F8 (F8: string tables large enough for 2- and 3-byte string ids) (see DESIGN.md C01; quick restricts F1's A x B square to B = A with one column flipped / info removed / keys_vals flipped / complement / full / empty) x decoder counts; a case is one (file, procs) scan; " +
 			"non-trivial = file has >= 2 data blocks or at least one optional column/field/part absent; distinct = FNV of file bytes + procs")
 		r.Assume("gen/pbfgen's hand-written protobuf encoder and its expected-object computation follow osmformat.proto/fileformat.proto")
 		r.Assume("zlib blobs without raw_size, non-packed repeated fields and plain Node groups are outside the enumerated valid-file domain")
@@ -63,7 +63,11 @@ func main() {
 		// single decoder (both blocks on the same worker); the multi-decoder
 		// settings get the diagonal band.
 		only = []int{1}
-		genF1(add, 0)
+		if r.Quick() {
+			genF1(add, 2)
+		} else {
+			genF1(add, 0)
+		}
 		only = procs[1:]
 		genF1(add, 1)
 		only = nil
@@ -73,6 +77,7 @@ func main() {
 		genF5(add, r.Quick())
 		genF6(add)
 		genF7(add)
+		genF8(add)
 		r.Set("family_counts", fams)
 		r.ParIsolated(len(cases), func(i int) { runCase(r, &cases[i]) }, func(i int, what, detail string) {
 			c := &cases[i]
@@ -146,10 +151,32 @@ func denseVariant(v int, base int64) (*pbfgen.Dense, string) {
 	return d, desc
 }
 
+// f1Neighbour selects, for the quick tier, the B variants that matter for state
+// cached from block A: B = A with exactly one column removed or added, A without
+// info, A with keys_vals flipped, the complement of A's columns, the full and
+// the empty variant, and A itself. (The thorough tier runs the full square.)
+func f1Neighbour(a, b int) bool {
+	if b == a || b <= 1 || b >= 128 || b == a^1 {
+		return true
+	}
+	ia, ib := a/2, b/2 // 0 = no info, k+1 = column mask k
+	if a%2 != b%2 {
+		return false
+	}
+	if ia == 0 || ib == 0 {
+		return true
+	}
+	x := (ia - 1) ^ (ib - 1)
+	return x&(x-1) == 0 || x == 63
+}
+
 func genF1(add func(tcase), band int) {
 	for a := 0; a < 130; a++ {
 		for b := 0; b < 130; b++ {
 			if band == 1 && !(b == a || b == 0 || b == 129 || b == 129-a) {
+				continue
+			}
+			if band == 2 && !f1Neighbour(a, b) {
 				continue
 			}
 			da, sa := denseVariant(a, 100)
@@ -468,5 +495,23 @@ func genF7(add func(tcase)) {
 				{Ways: []pbfgen.Way{w}}, {Relations: []pbfgen.Relation{rl}}}}}}
 			add(tcase{Family: "F7", Desc: "string class " + cn + " at " + pos, File: f, NonTrivial: cn != "ascii"})
 		}
+	}
+}
+
+// ---- F8: large string tables (string ids that need 2- and 3-byte varints) ----
+
+func genF8(add func(tcase)) {
+	for _, n := range []int{100, 126, 127, 128, 129, 255, 256, 1000, 16382, 16383, 16384, 16390} {
+		extra := make([]string, n)
+		for i := range extra {
+			extra[i] = fmt.Sprintf("unused-%d", i)
+		}
+		groups := mixedGroups(40, true)
+		groups = append(groups, pbfgen.Group{Ways: []pbfgen.Way{fatWay(61), {ID: 62, Tags: [][2]string{{"only", "tag"}}, Refs: []int64{1}}}},
+			pbfgen.Group{Relations: []pbfgen.Relation{fatRelation(71), {ID: 72, Tags: [][2]string{{"k", "v"}}, Members: []pbfgen.Member{{Type: 0, Ref: 5, Role: "r"}}}}})
+		blk := pbfgen.Block{ExtraStrings: extra, Groups: groups}
+		plain := pbfgen.Block{Groups: mixedGroups(50, false)}
+		add(tcase{Family: "F8", Desc: fmt.Sprintf("%d unused string table entries before the used ones", n), NonTrivial: true,
+			File: &pbfgen.File{Header: pbfgen.StdHeader(), Blocks: []pbfgen.Block{blk, plain, blk}}})
 	}
 }
